@@ -218,6 +218,9 @@ class Executor:
                         nxt.append(ss)
                 states = nxt
             return states
+        if isinstance(it, Opaque):
+            # an unknown value that is iterated: an ARBITRARY list (sound over-approximation of any cached / aliased list)
+            it = SymList(f"opaque{it.id}")
         if not isinstance(it, SymList):
             raise Unsupported("for over a non-list value")
         # invariant rule on the ghost delivery trace.  The body must be a single ghost callback `x.callback(arg)`.
@@ -444,6 +447,15 @@ class Executor:
                 return h(self, s, a, b)
             return self.boolean("isinstance")
         args = [self.expr(a, s) for a in e.args]
+        if isinstance(e.func, ast.Attribute) and e.func.attr == "get" and len(args) == 2 and args[1] == []:
+            base = self.expr(e.func.value, s)
+            if isinstance(base, SymDict) and z3.is_expr(args[0]):
+                # dict.get(key, []): the registered list when the key is present, else a fresh empty list
+                L = SymList.__new__(SymList)
+                L.name = f"{base.name}.get"
+                L.arr = base.lists[args[0]]
+                L.n = z3.If(base.dom[args[0]], base.lens[args[0]], z3.IntVal(0))
+                return L
         kind = self.event_calls(desc) if callable(self.event_calls) else None
         if kind:
             s.events.append(Event(desc, args, s.pc, kind=kind))
